@@ -2,6 +2,7 @@
 mod c01;
 mod c02;
 mod c03;
+mod c05;
 mod hist;
 mod world;
 
@@ -24,6 +25,11 @@ fn main() {
         "C04" => {
             let mut r = Runner::from_env("C04", "exploration");
             c02::run_c04_sequential(&mut r);
+            r.finish();
+        }
+        "C05" => {
+            let mut r = Runner::from_env("C05", "exploration");
+            c05::run(&mut r);
             r.finish();
         }
         "C02" => {
